@@ -556,9 +556,14 @@ static void hist_case(Case& cs, const Profile& pf) {
     trace << "write_block() [final] -> " << ret << "\n";
   }
   size_t still_buffered = ref.items();
-  ex.reset();   // destruction
+  bool unwind = scripted ? false : c.range(0, 3) == 0;
+  if (unwind) {   // destruction while an application exception propagates: the output must be closed just the same
+    try { std::unique_ptr<CDNS::CdnsExporter> local = std::move(ex); throw std::logic_error("application error"); }
+    catch (const std::logic_error&) {}
+    cs.st.cls("destroyed_during_unwinding");
+  } else ex.reset();   // destruction
   ref.outs.back().closed_by_destroy = true;
-  trace << "destroy (" << still_buffered << " items still buffered)\n";
+  trace << (unwind ? "destroy during stack unwinding (" : "destroy (") << still_buffered << " items still buffered)\n";
   cs.sample = trace.str();
   if (cs.replay) printf("%s", trace.str().c_str());
 
